@@ -1596,6 +1596,15 @@ static int cfg_parse_internal(cfg_t *cfg, int level, int force_state, cfg_opt_t 
 			val->section->path = cfg->path; /* Remember global search path */
 			val->section->line = cfg->line;
 			val->section->errfunc = cfg->errfunc;
+			/* a section made by cfg_init(), or in another file, is now read from this one */
+			if (cfg->filename && (!val->section->filename || strcmp(val->section->filename, cfg->filename))) {
+				char *fn = strdup(cfg->filename);
+
+				if (fn) {
+					free(val->section->filename);
+					val->section->filename = fn;
+				}
+			}
 			rc = cfg_parse_internal(val->section, level + 1, -1, NULL);
 			if (rc != STATE_EOF)
 				goto error;
